@@ -2,6 +2,7 @@ package refsql
 
 import (
 	"database/sql"
+	"errors"
 	"fmt"
 	"strings"
 	"time"
@@ -63,7 +64,11 @@ func (s *Store) Get(key string) ([]byte, error) {
 	row := s.db.QueryRow(`SELECT sum FROM refs WHERE name = ?`, key)
 	sum := make([]byte, 16)
 	if err := row.Scan(&sum); err != nil {
-		return nil, ref.ErrKeyNotFound
+		if errors.Is(err, sql.ErrNoRows) {
+			return nil, ref.ErrKeyNotFound
+		}
+		// a read failure is not "no such ref": callers create the ref anew on ErrKeyNotFound
+		return nil, err
 	}
 	return sum, nil
 }
@@ -76,6 +81,10 @@ func (s *Store) SetWithLog(key string, sum []byte, rl *ref.Reflog) error {
 		row := tx.QueryRow(`SELECT sum FROM refs WHERE name = ?`, key)
 		oldSum := make([]byte, 16)
 		if err := row.Scan(&oldSum); err != nil {
+			if !errors.Is(err, sql.ErrNoRows) {
+				// the log must not claim the ref did not exist because it could not be read
+				return err
+			}
 			oldSum = nil
 		}
 		if _, err := tx.Exec(
